@@ -325,4 +325,6 @@ RULES = [
     ("C14.R3", "every write is paired with the histogram of its output", r3),
     ("C14.R4", "histogram rows: distinct sorted lengths, one count per output", r4),
 ]
-FLOORS = {"C14.R1": 9, "C14.R2": 14, "C14.R3": 3, "C14.R4": 3}
+# instance floors: about 60% of the instances confirmed by hand on the reference tree -- a rule that suddenly matches far fewer
+# sites fails the run (exit 2); a clean-up that merges two sites into one does not
+FLOORS = {"C14.R1": 5, "C14.R2": 8, "C14.R3": 1, "C14.R4": 1}
